@@ -58,6 +58,7 @@ class Ctx(object):
                  seed=0):
         self.solver = z3.Solver()
         self.solver.set('timeout', query_timeout_ms)
+        self.query_timeout_ms = query_timeout_ms
         self.solver.set('random_seed', seed)
         self.prefix = list(prefix)
         self.decisions = []
@@ -71,6 +72,7 @@ class Ctx(object):
         self.nfresh = 0
         self.unknown_feasibility = False
         self._fixed = {}
+        self.numpy_division = False  # harness switch: numpy 0-division
 
     # -- variables ---------------------------------------------------------
     def _reg(self, name, c):
@@ -243,7 +245,11 @@ def pyval(v):
         return v.as_long()
     if z3.is_rational_value(v):
         f = fractions.Fraction(v.numerator_as_long(), v.denominator_as_long())
-        return {'num': f.numerator, 'den': f.denominator, 'float': float(f)}
+        try:
+            fl = float(f)
+        except OverflowError:
+            fl = float('inf') if f > 0 else float('-inf')
+        return {'num': f.numerator, 'den': f.denominator, 'float': fl}
     if z3.is_algebraic_value(v):
         a = v.approx(30)
         f = fractions.Fraction(a.numerator_as_long(), a.denominator_as_long())
@@ -542,6 +548,9 @@ class _SymNum(Sym):
         sb = z3.simplify(b)
         if not z3.is_rational_value(sb) or sb.numerator_as_long() == 0:
             if cur().branch(b == 0):
+                if cur().numpy_division:
+                    # numpy float semantics: x/0 is inf or nan (non-finite)
+                    return NAN
                 raise ZeroDivisionError('division by zero')
         return SymReal(a / b)
 
@@ -559,11 +568,19 @@ class _SymNum(Sym):
         if rev:
             a, b = b, a
         if k == 'i':
+            if cur().numpy_division:
+                sb = z3.simplify(b)
+                if not z3.is_int_value(sb) or sb.as_long() == 0:
+                    if cur().branch(b == 0):
+                        # numpy integer semantics: x//0 and x%0 are 0
+                        return SymInt(z3.IntVal(0))
             q = _floordiv_int(a, b)
             return SymInt(a - q * b) if mod else SymInt(q)
         sb = z3.simplify(b)
         if not z3.is_rational_value(sb) or sb.numerator_as_long() == 0:
             if cur().branch(b == 0):
+                if cur().numpy_division:
+                    return NAN
                 raise ZeroDivisionError('float division by zero')
         q = z3.ToReal(_floor_real(a / b))
         return SymReal(a - q * b) if mod else SymReal(q)
